@@ -45,7 +45,7 @@ def labels_of(stdout):
 
 def run(chk, tmp, replay=None):
     quick = chk.tier == "quick"
-    cfg = "SPECIFICATION QSpec\nCONSTANTS\n  OutFile <- NoOutC\n  QOutFile <- QOutFileC\n  DepChoice = \"all\"\nINVARIANTS DepsRdepsInverse TransitiveContainsDirect\nCHECK_DEADLOCK FALSE\n"
+    cfg = "SPECIFICATION QSpec\nCONSTANTS\n  OutFile <- NoOutC\n  QOutFile <- QOutFileC\n  DepChoice = \"all\"\nINVARIANTS DepsRdepsInverse TransitiveContainsDirect ChangesWithinAffected\nCHECK_DEADLOCK FALSE\n"
     wd = os.path.join(tmp, "tlc")
     res = core.tlc(wd, "QueryMC.tla", "q.cfg", timeout=1500, files={"q.cfg": cfg}, heap="8g")
     core.tlc_must_pass(res, "Query")
@@ -75,7 +75,7 @@ def run(chk, tmp, replay=None):
         def q(args, expect, what, cwd=ws):
             nonlocal n
             n += 1
-            p = core.run([grog] + args, cwd=cwd, env=env, timeout=60)
+            p = core.run([grog] + args, cwd=cwd, env=dict(env, GIT_CONFIG_GLOBAL="/dev/null"), timeout=60)
             got = labels_of(p.stdout)
             exp = sorted(expect)
             if p.returncode != 0 or "panic" in p.stderr:
@@ -103,6 +103,9 @@ def run(chk, tmp, replay=None):
         # rebuild prediction: build everything, edit one file, rebuild; what runs must lie inside owners(f) + transitive rdeps
         hist = []
         if i % (4 if quick else 1) == 0:
+            genv = dict(env, GIT_AUTHOR_NAME="v", GIT_AUTHOR_EMAIL="v@example.invalid", GIT_COMMITTER_NAME="v", GIT_COMMITTER_EMAIL="v@example.invalid", GIT_CONFIG_GLOBAL="/dev/null")
+            for gc in (["git", "init", "-q"], ["git", "add", "-A"], ["git", "commit", "-q", "-m", "base"]):
+                core.run(gc, cwd=ws, env=genv, timeout=60)
             b1 = core.run([grog, "build", "//..."], cwd=ws, env=env, timeout=120)
             b1t = core.run([grog, "test", "//..."], cwd=ws, env=env, timeout=120)
             for f in ("p/a.txt", "p/q/c.txt", "r/y.txt"):
@@ -123,6 +126,13 @@ def run(chk, tmp, replay=None):
                     bad.append(("predict:rebuild-outside-owners-rdeps", ["edit", f], sorted(pred), sorted(ran_l)))
                 if not set(ran) <= set(c["affected"][f]):
                     bad.append(("predict:rebuild-outside-model-affected", ["edit", f], sorted(c["affected"][f]), ran))
+                # `grog changes` since the base commit: exactly the files edited so far are changed
+                edited = [x for x in ("p/a.txt", "p/q/c.txt", "r/y.txt") if x == f or any(h[0] == x for h in hist)]
+                for flag, keyname in ((["--dependents=none"], "direct"), (["--dependents=transitive"], "transitive")):
+                    want = set()
+                    for x in edited:
+                        want |= set(c["changes"][x][keyname])
+                    q(["changes", "--since=HEAD"] + flag, [lab(g, x) for x in want], "changes-" + keyname)
                 hist.append((f, ran))
         return c, bad, n, hist
 
